@@ -9,7 +9,7 @@ import json, os, subprocess, sys, hashlib
 HERE = os.path.dirname(os.path.abspath(__file__))
 VERIF = os.path.dirname(HERE)
 sys.path.insert(0, HERE)
-import buildlib, cxx2lean
+import buildlib, cxx2lean, gen_locks
 
 GEN = os.path.join(VERIF, "lean", "MemVerif", "Gen")
 
@@ -149,6 +149,16 @@ def generate(cfgs=("rwdi",)):
         except cxx2lean.TranslateError as e:
             res["errors"].append("%s: %s" % (fname, e))
     res["sigs"] = sigs
+    # C13: lock discipline table of allocator_storage (from the AST)
+    try:
+        lk = gen_locks.generate(repo, incs, defs, GEN)
+        res["storage_members"] = lk.get("members", [])
+        res["locked_allocator"] = lk.get("locked_allocator", {})
+        res["errors"] += ["StorageMembers.lean: " + e for e in lk["errors"]]
+        if not lk["errors"]:
+            res["files"].append("StorageMembers.lean")
+    except Exception as e:  # translator failure = broken tie, reported by the checks
+        res["errors"].append("StorageMembers.lean: %s" % e)
     with open(os.path.join(buildlib.BUILD, "gen_sigs.json"), "w") as f:
         json.dump(res, f, indent=1)
     return res
